@@ -95,6 +95,9 @@ class SymIntMap(collections.abc.MutableMapping):
     def __len__(self):
         return len(self._k)
 
+    def __reversed__(self):
+        return iter(list(reversed(self._k)))
+
     def clear(self):
         self._k = []
         self._v = []
